@@ -83,3 +83,39 @@ pub fn run(seed: u64, tier: &str, out: &mut Out) {
         }
     }
 }
+
+/// C13 (resize): `{wide_bar}` takes the columns the terminal has *now*: the terminal is resized, or the bar is
+/// moved to a terminal of another width, between ordinary (non-forced) draws; every frame must fill exactly
+/// the width its terminal had when it was painted.
+pub fn run_resize(seed: u64, tier: &str, out: &mut Out) {
+    let mut rng = Rng::new(seed ^ 0x1313);
+    let n = if tier == "thorough" { 50_000 } else { 1_500 };
+    for _ in 0..n {
+        let mut w = *rng.pick(&[20u16, 33, 40, 80]);
+        let mut rec = Recorder::new(4, w, false);
+        let prefix: String = (0..rng.below(5)).map(|_| 'p').collect();
+        let pb = ProgressBar::with_draw_target(Some(100), ProgressDrawTarget::term_like(Box::new(rec.clone())));
+        pb.set_style(ProgressStyle::with_template("{prefix}{wide_bar}").unwrap().progress_chars("#>-"));
+        pb.set_prefix(prefix.clone());
+        let mut case = format!("NOMODEL RESIZE w={w} prefix={}", prefix.len());
+        let mut verdict = "ok".to_string();
+        let k = rng.range(2, 12);
+        for _ in 0..k {
+            { rec.st.lock().unwrap().ops.clear(); }
+            match rng.below(6) {
+                0 | 1 => { w = *rng.pick(&[10u16, 20, 33, 40, 57, 80, 120]); rec.set_width(w); case += &format!(" ; resize {w}"); }
+                2 => { w = *rng.pick(&[15u16, 30, 60]); rec = Recorder::new(4, w, false); pb.set_draw_target(ProgressDrawTarget::term_like(Box::new(rec.clone()))); case += &format!(" ; retarget {w}"); }
+                3 => { case += " ; inc"; pb.inc(1); }
+                4 => { case += " ; tick"; pb.tick(); }
+                _ => { case += " ; msg"; pb.set_message("m"); }
+            }
+            if let Some(line) = last_line(&rec) {
+                if line.is_empty() { continue; }
+                let cols = console::measure_text_width(&line);
+                if verdict == "ok" && cols != w as usize { verdict = format!("FAIL wide-bar-width frame has {cols} columns on a terminal of {w}: {line:?}"); }
+            }
+        }
+        pb.abandon();
+        out.emit(&case, &format!(" ORACLE {verdict}"));
+    }
+}
